@@ -41,7 +41,8 @@ def qbytes_int_mm(activations: torch.Tensor, weights: torch.Tensor, output_scale
     # torch._int_mm works on transposed weights, i.e (in_features, out_features)
     weights = weights.contiguous().t()
     if activations.ndim == 2:
-        out_data = torch._int_mm(activations, weights)
+        # (reshape normalizes the strides of a single row, that contiguous() leaves as they are)
+        out_data = torch._int_mm(activations.reshape(-1, in_features), weights)
     else:
         output_shape = activations.shape[:-1] + (out_features,)
         out_data = torch._int_mm(activations.reshape(-1, in_features), weights)
